@@ -10,20 +10,42 @@ from .extract import AnalysisBroken
 PID = "C11"
 LEVEL = "other"
 
-SCOPE = ("src/THDM/gm2_2loop_B.cpp", "src/THDM/gm2_2loop_F.cpp", "src/THDM/gm2_1loop_H.cpp", "src/gm2_ffunctions.cpp")
+SCOPE = ("src/THDM/gm2_2loop_B.cpp", "src/THDM/gm2_2loop_F.cpp", "src/THDM/gm2_1loop_H.cpp", "src/gm2_ffunctions.cpp",
+         "src/MSSMNoFV/gm2_1loop.cpp", "src/MSSMNoFV/gm2_2loop.cpp")
 OPAQUE = re.compile(r"^gm2calc::(thdm::)?(\(anonymous namespace\)::)?(Fa|Fb|Ixyz|Iabc|F1C|F2C|F3C|F4C|F1N|F2N|F3N|F4N|G3|G4|"
                     r"f_PS|f_S|f_sferm|dilog|clausen_2|Phi|lambda_2|FPZ|FSZ|FCWl|FCWu|FCWd|f_CSl|f_CSd|f_CSu|"
                     r"is_equal_rel|is_equal|is_zero|sort|phi_uv|phi_pos|phi_neg|phi_over_y)$")
-INLINE_HELPERS = re.compile(r"::(sqr|cube|pow3|pow4|pow5|pow2|shift|sign|abs_sqrt)$")
+INLINE_HELPERS = re.compile(r"::(sqr|cube|pow3|pow4|pow5|pow2|shift|sign|abs_sqrt|I1y|Ixx|I0y)$")
+# helpers with a caller-side contract ("x == 1, y != 0"): analysed only inlined into their callers
+AT_CALL_SITE = ("I1y", "Ixx", "I0y")
 
 # atoms that are functions of the SM inputs MW, MZ only: their combinations cannot hit a pole for physical input
 SM_ONLY = re.compile(r"^(cw2|cw4|cw6|cw8|sw2|mw2|mz2|mw|mz|thdm\.mw|thdm\.mz|pars\.mw|pars\.mz|sm\.mw2|sm\.mz2)$")
 
-# reviewed exceptions: (function, factor) -> reason.  Keyed by the normal form of the factor, not by position.
-EXCEPTIONS = {
+# argument relations that hold by construction at every call site (verified there, rule R1r):
+#   function -> (lhs product of parameter names, rhs product)  meaning  lhs == rhs
+RELATIONS = {
+    "FCWd": (("xu", "yd"), ("xd", "yu")),     # xu/yu == xd/yd == mw^2/ms^2  ("xd == yd <=> xu == yu, per definition")
+    "FCWu": (("xu", "yd"), ("xd", "yu")),
 }
 
-GUARD_BAND = (Fraction(1, 10 ** 9), Fraction(1, 10 ** 3))
+# reviewed exceptions.  Keyed by (function, normal form of the factor); valid only while the listed path
+# facts are still on the path of the division and the named caller-side contract is verified (rule R1c).
+REVIEWED = {
+    ("Ixy", "y + -1"): dict(
+        path=[("is_equal_rel((x / y), 1", False), ("is_equal_rel(x, 1", True)], tol_order=True, contract="Ixy_sorted",
+        reason="dead path: Ixy is only called with sorted, normalised arguments x <= y <= 1, so x ~ 1 (tol e) implies "
+               "x <= x/y <= 1, i.e. x/y ~ 1 (tol e' >= e), which is tested first and sends the call to Ixx"),
+    ("l0v", "-1*v + 1"): dict(
+        path=[], contract="phi_pos_lambda_positive",
+        reason="l0v/lv0 are reached only from phi_pos (u,v <= 1, lambda^2(u,v) > 0): at v = 1, lambda^2 = u(u-4) < 0, "
+               "and lambda^2 > 0 keeps 1-v > 2 sqrt(u), which bounds every term of the expansion"),
+    ("lv0", "-1*v + 1"): dict(
+        path=[], contract="phi_pos_lambda_positive",
+        reason="see l0v"),
+}
+
+GUARD_BAND = (Fraction(1, 10 ** 10), Fraction(1, 10 ** 4))
 
 
 def factors(t):
@@ -129,14 +151,26 @@ def subs_power(p, atom, k, val):
     return tot
 
 
+_REL = []      # relations of the function under analysis: list of (atom, Rat) eliminations
+
+
 def vanishes(t, sub):
-    """does term t become identically zero under the substitution atom^k -> Rat ?"""
+    """does term t become identically zero under the substitution atom^k -> Rat (modulo the argument
+    relations of the function under analysis)?"""
     try:
         r = to_rat(t)
     except NotPolynomial:
         return False
     atom, k, val = sub
-    return subs_power(r.n, atom, k, val).is_zero()
+    if subs_power(r.n, atom, k, val).is_zero():
+        return True
+    for a, v in _REL:
+        if a == atom:
+            continue
+        r2 = subs_power(r.n, a, 1, v)
+        if subs_power(r2.n, atom, k, val).is_zero():
+            return True
+    return False
 
 
 def excluded_by(q, assumed):
@@ -174,6 +208,44 @@ def excluded_by(q, assumed):
                 if z:
                     if (op == "<" and truth) or (op == "<=" and not truth) or (op == "==" and not truth) or (op == "!=" and truth):
                         return c
+    # (b) q is, up to a monomial, the product of the numerators of two excluded closeness tests
+    #     (Kaellen function = (xu - (1-sqrt xd)^2)(xu - (1+sqrt xd)^2))
+    nums = []
+    for c, truth in assumed:
+        x = _abs_guard(c)
+        if x is not None and not truth:
+            try:
+                nums.append((c, _reduce_sqrt(to_rat(x).n)))
+            except NotPolynomial:
+                pass
+    qr = _reduce_sqrt(q)
+    for i in range(len(nums)):
+        for j in range(i + 1, len(nums)):
+            if _monomial_multiple(_reduce_sqrt(nums[i][1] * nums[j][1]), qr):
+                return ("and", ("not", nums[i][0]), ("not", nums[j][0]))
+    # (c) on a near-coincidence branch (|X| < eps assumed true) the zero of q forces an argument to zero:
+    #     a codimension-2 point on the boundary of the domain (a vanishing mass), not a mass coincidence
+    for a, k, val in cands:
+        if k != 1:
+            continue
+        for c, truth in assumed:
+            x = _abs_guard(c)
+            if x is None or not truth:
+                continue
+            try:
+                n_ = _reduce_sqrt(to_rat(x).n)
+            except NotPolynomial:
+                continue
+            r_ = subs_power(n_, a, 1, val)
+            if isinstance(a, tuple) and a and a[0] == "call" and a[1] == "sqrt":
+                try:
+                    inner = to_rat(a[2][0]).n
+                except NotPolynomial:
+                    inner = None
+                if inner is not None and len(inner.atoms()) == 1 and len(inner.t) == 1:
+                    r_ = subs_power(r_.n, next(iter(inner.atoms())), 1, val * val)
+            if len(r_.n.t) == 1 and not r_.n.is_const():
+                return ("forced-zero", c)
     # quadratic / non-linear factor: an assumed-false is_zero(X) / is_equal with X a constant multiple of q or q = X^2
     for c, truth in assumed:
         if c[0] == "call" and str(c[1]).split("::")[-1] == "is_zero" and not truth:
@@ -184,6 +256,52 @@ def excluded_by(q, assumed):
             if x.d.is_const() and _proportional(x.n, q):
                 return c
     return None
+
+
+def _abs_guard(c):
+    """X for a condition of the form |X| < eps"""
+    if c[0] == "cmp" and c[1] in ("<", "<=") and c[2][0] == "call" and str(c[2][1]).split("::")[-1] == "abs":
+        return c[2][2][0]
+    return None
+
+
+def _reduce_sqrt(p):
+    """sqrt(B)^2 -> B for polynomial B"""
+    for a in list(p.atoms()):
+        if isinstance(a, tuple) and a and a[0] == "call" and a[1] == "sqrt" and p.degree_in(a) >= 2:
+            try:
+                b = to_rat(a[2][0])
+            except NotPolynomial:
+                continue
+            r = subs_power(p, a, 2, b)
+            if r.d.is_const():
+                p = r.n.scale(1 / r.d.const_value())
+    return p
+
+
+def _monomial_multiple(P, q):
+    """P == k * m * q for a constant k and a monomial m"""
+    if not P.t or not q.t:
+        return False
+    mq = next(iter(q.t))
+    dq = dict(mq)
+    for mp in P.t:
+        dp = dict(mp)
+        m = {}
+        ok = True
+        for a in set(dp) | set(dq):
+            e = dp.get(a, 0) - dq.get(a, 0)
+            if e < 0:
+                ok = False
+                break
+            if e:
+                m[a] = e
+        if not ok:
+            continue
+        mono = Poly({tuple(sorted(m.items(), key=lambda y: repr(y[0]))): Fraction(1)})
+        if _proportional(q * mono, P):
+            return True
+    return False
 
 
 def _proportional(a, b):
@@ -224,20 +342,80 @@ def run(F, R, tier):
                      "guard idioms enumerated in rules_c11.excluded_by"]
     R.undecided = ["the 1% continuity band as a number", "poles of the opaque loop functions themselves (C01/C02)"]
 
-    from .rules_c08 import subs_rat
+    global _REL
+    sym = lambda n: Poly.atom(("sym", n))
+    mk = lambda f_: Evaluator(F, inline=lambda n, g: bool(INLINE_HELPERS.search(n)), max_depth=4)
+
+    # ---- R1r: argument relations hold at every call site -------------------------------------------
+    R.rule("R1r", "argument relations used as guards (xu/yu == xd/yd for FCWu/FCWd) hold as identities at every call site", 2)
+    rel_ok = {}
+    for fn_, (lhs, rhs) in sorted(RELATIONS.items()):
+        cal = [f for f in F.functions.values() if f["file"] in SCOPE and f["name"].split("::")[-1] == fn_]
+        if len(cal) != 1:
+            R.broken("relation anchor %s: %d definitions" % (fn_, len(cal)))
+            continue
+        cal = cal[0]
+        pn = [p_["name"] for p_ in cal["params"]]
+        sites = 0
+        good = True
+        for ck in sorted(F.callers.get(cal["mg"], ())):
+            g = F.functions[ck]
+            v, fr = mk(g).function_value(g)
+            seen = set()
+            for x in subterms(v):
+                if isinstance(x, tuple) and len(x) == 3 and x[0] == "call" and str(x[1]).split("::")[-1] == fn_ and x not in seen:
+                    seen.add(x)
+                    sites += 1
+                    try:
+                        env = {n_: to_rat(a_) for n_, a_ in zip(pn, x[2])}
+                        l_, r_ = Rat(Poly.const(1)), Rat(Poly.const(1))
+                        for n_ in lhs:
+                            l_ = l_ * env[n_]
+                        for n_ in rhs:
+                            r_ = r_ * env[n_]
+                        holds = (l_ - r_).is_zero()
+                    except (NotPolynomial, KeyError):
+                        holds = False
+                    good = good and holds
+                    R.check("R1r", holds, "%s called from %s: %s == %s" % (fn_, g["name"].split("::")[-1], "*".join(lhs), "*".join(rhs)),
+                            F.loc(g), "call of %s does not satisfy %s == %s, on which its equality guard relies"
+                            % (fn_, "*".join(lhs), "*".join(rhs)), key="R1r|%s|%s" % (fn_, g["name"]))
+        if sites == 0:
+            R.soft_broken("relation %s: no call site found" % fn_)
+        rel_ok[fn_] = good and sites > 0
+
+    # ---- R1c: caller-side contracts of the reviewed exceptions -------------------------------------
+    R.rule("R1c", "caller-side contracts under which reviewed exceptions of R1 are valid", 2)
+    contract_ok = {}
+    for cname in sorted({d["contract"] for d in REVIEWED.values() if d.get("contract")}):
+        ok_, detail, loc = CONTRACTS[cname](F)
+        contract_ok[cname] = ok_
+        R.check("R1c", ok_, "contract %s: %s" % (cname, detail), loc,
+                "contract %s no longer holds: %s" % (cname, detail), key="R1c|" + cname)
+
     R.rule("R1", "every coincidence-type denominator factor is excluded on its path by a guard (shift / equality branch / "
                  "ordered chain), or consists of SM inputs only", 40)
     n_sm = 0
+    absorbed, guards_used = [], []
     for k, f in sorted(F.functions.items(), key=lambda x: (x[1]["file"], x[1]["line"])):
         if f["file"] not in SCOPE or (f.get("method") or {}).get("lambda"):
             continue
         short = f["name"].split("::")[-1]
-        if short in ("shift", "sqr", "pow3", "pow4", "cube"):
+        if short in ("shift", "sqr", "pow3", "pow4", "cube") or short in AT_CALL_SITE:
             continue
-        E = Evaluator(F, inline=lambda n, g: bool(INLINE_HELPERS.search(n)), max_depth=4)
-        v, fr = E.function_value(f)
+        _REL = []
+        if short in RELATIONS and rel_ok.get(short):
+            lhs, rhs = RELATIONS[short]
+            num_ = Rat(Poly.const(1))
+            for n_ in rhs:
+                num_ = num_ * Rat(sym(n_))
+            for n_ in lhs[1:]:
+                num_ = num_ * Rat(Poly.const(1), sym(n_))
+            _REL = [(("sym", lhs[0]), num_)]
+        v, fr = mk(f).function_value(f)
         found = {}
         _walk(v, [], found, f, short)
+        _REL = []
         for key, (q, guard, qtxt, assumed_txt) in sorted(found.items()):
             inst = "%s: 1/(%s)" % (short, qtxt[:70])
             names = atom_names(q)
@@ -245,14 +423,351 @@ def run(F, R, tier):
                 n_sm += 1
                 R.ok("R1", inst + " [SM inputs only]", F.loc(f))
                 continue
-            if (short, qtxt) in EXCEPTIONS:
-                R.ok("R1", inst + " [reviewed: %s]" % EXCEPTIONS[(short, qtxt)][:60], F.loc(f))
+            rv = REVIEWED.get((short, qtxt))
+            if guard is None and rv is not None:
+                missing = [t_ for t_, tr in rv["path"]
+                           if (("" if tr else "!") + t_) not in assumed_txt or (tr and ("!" + t_) in assumed_txt.replace("&& !" + t_, "", 0) and False)]
+                if not missing and rv.get("tol_order"):
+                    missing = [] if _tol_order(rv["path"], assumed_txt) else ["tolerance order"]
+                c_ok = contract_ok.get(rv.get("contract"), True)
+                R.check("R1", not missing and c_ok, inst + " [reviewed: %s]" % rv["reason"][:80], F.loc(f),
+                        "reviewed exception for factor %s no longer applies (%s): %s"
+                        % (qtxt, "path facts missing: %s" % missing if missing else "contract %s violated" % rv.get("contract"),
+                           rv["reason"]), key="R1|%s|%s" % (short, qtxt[:80]))
                 continue
+            if guard is None:
+                cls = absval(v)[0]
+                if cls == FIN:
+                    absorbed.append((inst, F.loc(f)))
+                    R.ok("R1", inst + " [pole absorbed: the result stays finite in IEEE arithmetic, see R4]", F.loc(f))
+                    continue
+            else:
+                guards_used.append((short, qtxt, guard, F.loc(f)))
             R.check("R1", guard is not None, inst + (" guarded by %s" % show(guard)[:60] if guard is not None else ""), F.loc(f),
                     "denominator factor %s can vanish at a coincidence of its arguments and no guard on the path excludes it "
                     "(path: %s)" % (qtxt[:90], assumed_txt[:120] or "unconditional"),
                     key="R1|%s|%s" % (short, qtxt[:80]))
     R.analysed["sm_only_factors"] = n_sm
+
+    R.rule("R4", "a quantity that carries an unguarded pole on purpose (tan 2alpha = ... /(MA^2 - MZ^2)) is used only through "
+                 "its reciprocal: the abstract IEEE value (finite / +-inf / NaN) of the function result is `finite`", 1)
+    for inst, loc in absorbed:
+        R.ok("R4", inst, loc)
+    if not absorbed:
+        R.soft_broken("R4: no absorbed pole found (anchor tan_alpha in src/MSSMNoFV/gm2_2loop.cpp vanished?)")
+
+    lo, hi = GUARD_BAND
+    R.rule("R3", "tolerance of every pole guard >= %.0e (below that the rounding error of the cancelling numerator, amplified "
+                 "by the pole, exceeds 1%%); every shift(v, limit, eps) moves by <= %.0e (the quantifier bounds the slope by "
+                 "20%% per 2e-3, so a larger shift can leave the 1%% band)" % (float(lo), float(hi)), 30)
+    seen_tol = set()
+    for short, qtxt, guard, loc in guards_used:
+        for g_ in _atomic_guards(guard):
+            tol = _tolerance(g_)
+            key = (short, show(g_))
+            if tol is None or key in seen_tol:
+                continue
+            seen_tol.add(key)
+            R.check("R3", tol >= lo, "%s: guard %s has tolerance %.3g" % (short, show(g_)[:70], float(tol)), loc,
+                    "pole guard %s of %s has tolerance %.3g < %.0e: the formula is evaluated so close to its pole that "
+                    "rounding errors dominate" % (show(g_)[:90], short, float(tol), float(lo)), key="R3|%s|%s" % (short, show(g_)[:80]))
+    E0 = Evaluator(F, inline=lambda n, g: False, max_depth=0)
+    for k, f in sorted(F.functions.items(), key=lambda x: (x[1]["file"], x[1]["line"])):
+        if f["file"] not in SCOPE:
+            continue
+        for c in F.calls[k]:
+            if str(c.get("fn", "")).split("::")[-1] != "shift" or len(call_args(c)) != 3:
+                continue
+            tgt = F.functions.get(c.get("mg"))
+            if tgt is None or tgt["file"] not in SCOPE:
+                continue
+            fr = Frame(E0, f, {}, ("this",), 0)
+            try:
+                fr.run()
+                t_ = fr.fz(fr.e(call_args(c)[2]))
+            except Exception:
+                t_ = None
+            tol = t_[1] if isinstance(t_, tuple) and t_ and t_[0] == "num" else None
+            short = f["name"].split("::")[-1]
+            if tol is None:
+                R.soft_broken("R3: tolerance of shift() in %s is not a constant" % short)
+                continue
+            R.check("R3", lo <= tol <= hi, "%s: shift by %.3g" % (short, float(tol)), F.loc(f, c),
+                    "shift(...) in %s uses eps = %.3g outside [%.0e, %.0e]" % (short, float(tol), float(lo), float(hi)),
+                    key="R3|shift|%s|%s" % (short, c.get("l")))
+
+
+FIN, INF, NAN = 0, 1, 2
+_INF_OK = ("sqrt", "abs", "hypot", "fabs")
+
+
+def _nonzero_poly(t):
+    try:
+        r = to_rat(t)
+    except NotPolynomial:
+        return False
+    return bool(r.n.t) and not mixed_sign(r.n)
+
+
+def _maybe_zero(t):
+    """can the finite term t vanish for positive arguments?"""
+    try:
+        r = to_rat(t)
+    except NotPolynomial:
+        return True
+    return (not r.n.t) or mixed_sign(r.n)
+
+
+def absval(t, memo=None):
+    """abstract IEEE value of a term for finite positive inputs: (class, nonzero).
+    FIN: finite; INF: may be +-inf (never NaN); NAN: may be NaN"""
+    if memo is None:
+        memo = {}
+    if t in memo:
+        return memo[t]
+    h = t[0] if isinstance(t, tuple) and t else None
+    if h == "num":
+        r = (FIN, t[1] != 0)
+    elif h == "sym":
+        r = (FIN, True)
+    elif h == "neg":
+        r = absval(t[1], memo)
+    elif h in ("+", "-"):
+        a, b = absval(t[1], memo), absval(t[2], memo)
+        if NAN in (a[0], b[0]) or (a[0] == INF and b[0] == INF):
+            r = (NAN, False)
+        elif INF in (a[0], b[0]):
+            r = (INF, True)
+        else:
+            r = (FIN, _nonzero_poly(t))
+    elif h == "*":
+        a, b = absval(t[1], memo), absval(t[2], memo)
+        if NAN in (a[0], b[0]):
+            r = (NAN, False)
+        elif a[0] == INF or b[0] == INF:
+            r = (INF, True) if (a[1] and b[1]) else (NAN, False)      # inf * 0
+        else:
+            r = (FIN, a[1] and b[1])
+    elif h == "/":
+        a, b = absval(t[1], memo), absval(t[2], memo)
+        if NAN in (a[0], b[0]):
+            r = (NAN, False)
+        elif b[0] == INF:
+            r = (NAN, False) if a[0] == INF else (FIN, False)           # inf/inf ; x/inf = 0
+        elif a[0] == INF:
+            r = (INF, True)                                             # inf/x, inf/0
+        elif b[1] and not _maybe_zero(t[2]):
+            r = (FIN, a[1])
+        elif b[1] is False and _maybe_zero(t[2]) or _maybe_zero(t[2]):
+            r = (INF, True) if a[1] else (NAN, False)                   # x/0 = inf ; 0/0 = NaN
+        else:
+            r = (FIN, a[1])
+    elif h == "ite":
+        a, b = absval(t[2], memo), absval(t[3], memo)
+        r = (max(a[0], b[0]), a[1] and b[1])
+    elif h == "call":
+        args = [absval(x, memo) for x in t[2] if isinstance(x, tuple)]
+        worst = max([a[0] for a in args] or [FIN])
+        name = str(t[1]).split("::")[-1]
+        if worst == FIN:
+            r = (FIN, name.startswith("get_") or (name in _INF_OK and all(a[1] for a in args)))
+        elif worst == INF and name in _INF_OK:
+            r = (INF, True)
+        else:
+            r = (NAN, False)
+    else:
+        r = (FIN, False)
+    memo[t] = r
+    return r
+
+
+def _atomic_guards(g):
+    if isinstance(g, tuple) and g and g[0] in ("and", "not", "forced-zero"):
+        out = []
+        for x in g[1:]:
+            out.extend(_atomic_guards(x))
+        return out
+    return [g]
+
+
+def _tolerance(g):
+    """numeric tolerance of is_equal_rel(a,b,tol) / is_equal / is_zero(x,tol) / |X| < tol"""
+    t = None
+    if g[0] == "call":
+        name = str(g[1]).split("::")[-1]
+        if name in ("is_equal_rel", "is_equal") and len(g[2]) == 3:
+            t = g[2][2]
+        elif name == "is_zero" and len(g[2]) == 2:
+            t = g[2][1]
+    elif g[0] == "cmp" and _abs_guard(g) is not None:
+        t = g[3]
+    elif g[0] == "cmp" and g[1] in ("==", "!=", "<", "<="):
+        return Fraction(0)          # exact comparison: excludes the point, not a neighbourhood
+    return _numeric(t) if t is not None else None
+
+
+def _numeric(t):
+    """value of a constant tolerance expression (10*std::numeric_limits<double>::epsilon(), pow(eps, 0.25), ...)"""
+    h = t[0] if isinstance(t, tuple) and t else None
+    if h == "num":
+        return Fraction(t[1])
+    if h == "neg":
+        v = _numeric(t[1])
+        return None if v is None else -v
+    if h in ("+", "-", "*", "/"):
+        a, b = _numeric(t[1]), _numeric(t[2])
+        if a is None or b is None or (h == "/" and b == 0):
+            return None
+        return a + b if h == "+" else a - b if h == "-" else a * b if h == "*" else a / b
+    if h == "call":
+        name = str(t[1]).split("::")[-1]
+        if name == "epsilon" and not t[2]:
+            return Fraction(1, 2 ** 52)
+        if name == "pow" and len(t[2]) == 2:
+            a, b = _numeric(t[2][0]), _numeric(t[2][1])
+            if a is not None and b is not None and a > 0:
+                return Fraction(float(a) ** float(b))
+    return None
+
+
+def _tol_order(path, assumed_txt):
+    """tolerance of the assumed-false test >= tolerance of the assumed-true test (both of the form name(a, b, tol))"""
+    tol = {}
+    for t_, tr in path:
+        i = assumed_txt.find(("" if tr else "!") + t_)
+        if i < 0:
+            return False
+        seg = assumed_txt[i:].split("&&")[0]
+        m = re.search(r",\s*([0-9/]+)\)\s*$", seg.strip())
+        if not m:
+            return False
+        tol[tr] = Fraction(m.group(1))
+    return tol.get(False) is not None and tol.get(True) is not None and tol[False] >= tol[True]
+
+
+# ---- caller-side contracts ----------------------------------------------------------------------
+
+def _one(F, short):
+    fs = [f for f in F.functions.values() if f["file"] in SCOPE and f["name"].split("::")[-1] == short]
+    return fs
+
+
+def _is_sorting_network(f, n):
+    """body = sequence of `if (a > b) swap(a, b)` over the n reference parameters that sorts ascending (0-1 principle)"""
+    import itertools
+    from .structure import Struct
+    pn = [p_["name"] for p_ in f["params"]]
+    if len(pn) != n:
+        return False
+    steps = []
+    for st in f["body"].get("c", []):
+        if st.get("k") != "IfStmt" or st.get("else") is not None:
+            return False
+        c = strip_all(st["cond"])
+        if c.get("k") != "BinaryOperator" or c.get("op") not in (">", "<"):
+            return False
+        a, b = [strip_all(x) for x in c["c"]]
+        if a.get("k") != "DeclRefExpr" or b.get("k") != "DeclRefExpr":
+            return False
+        a, b = a.get("n"), b.get("n")
+        if c["op"] == "<":
+            a, b = b, a
+        calls = [x for x in walk(st["then"]) if is_call(x)]
+        if len(calls) != 1 or not str(calls[0].get("fn", "")).endswith("swap"):
+            return False
+        sw = sorted(strip_all(x).get("n") for x in call_args(calls[0]))
+        if sw != sorted([a, b]) or a not in pn or b not in pn:
+            return False
+        steps.append((pn.index(a), pn.index(b)))   # if v[a] > v[b]: swap
+    for bits in itertools.product((0, 1), repeat=n):
+        v = list(bits)
+        for i, j in steps:
+            if v[i] > v[j]:
+                v[i], v[j] = v[j], v[i]
+        if v != sorted(v):
+            return False
+    return bool(steps)
+
+
+def _contract_ixy_sorted(F):
+    """every call Ixy(P/Z, Q/Z) is preceded by sort(P, Q, Z) (an ascending sorting network); Ixy has no other caller"""
+    from .structure import Struct
+    fs = _one(F, "Ixy")
+    if len(fs) != 1:
+        raise AnalysisBroken("anchor Ixy: %d definitions" % len(fs))
+    ixy = fs[0]
+    callers = sorted(F.callers.get(ixy["mg"], ()))
+    if not callers:
+        raise AnalysisBroken("Ixy has no caller")
+    n = 0
+    for ck in callers:
+        g = F.functions[ck]
+        S = Struct(g)
+        for c in F.calls[ck]:
+            if c.get("mg") != ixy["mg"]:
+                continue
+            n += 1
+            args = [strip_all(a) for a in call_args(c)]
+            if len(args) != 2 or any(a.get("k") != "BinaryOperator" or a.get("op") != "/" for a in args):
+                return False, "call of Ixy in %s is not of the form Ixy(P/Z, Q/Z)" % g["name"], F.loc(g, c)
+            (p_, z1), (q_, z2) = [[strip_all(x) for x in a["c"]] for a in args]
+            names = [x.get("n") if x.get("k") == "DeclRefExpr" else None for x in (p_, q_, z1, z2)]
+            if None in names or names[2] != names[3]:
+                return False, "call of Ixy in %s is not of the form Ixy(P/Z, Q/Z)" % g["name"], F.loc(g, c)
+            want = [names[0], names[1], names[2]]
+            hit = False
+            for st in S.executed_before(c):
+                for x in walk(st):
+                    if is_call(x) and str(x.get("fn", "")).split("::")[-1] == "sort":
+                        got = [strip_all(a).get("n") for a in call_args(x)]
+                        tgt = F.functions.get(x.get("mg"))
+                        if got == want and tgt is not None and _is_sorting_network(tgt, 3):
+                            hit = True
+            if not hit:
+                return False, "Ixy(%s/%s, %s/%s) in %s is not preceded by sort(%s)" % (
+                    names[0], names[2], names[1], names[2], g["name"].split("::")[-1], ", ".join(want)), F.loc(g, c)
+    return True, "%d call site(s) of Ixy pass sorted, normalised arguments (sort is an ascending 3-sorting network)" % n, F.loc(ixy)
+
+
+def _contract_phi_pos(F):
+    """l0v, lv0 <- luv <- phi_pos only; every call of phi_pos is control-dependent on `lambda > 0` with
+    lambda = lambda_2(u, v)"""
+    from .structure import Struct
+    from .render import render
+    chain = {"l0v": {"luv"}, "lv0": {"luv"}, "luv": {"phi_pos"}, "phi_pos": {"phi_uv"}}
+    for callee, allowed in chain.items():
+        fs = _one(F, callee)
+        if len(fs) != 1:
+            raise AnalysisBroken("anchor %s: %d definitions" % (callee, len(fs)))
+        got = {F.functions[k]["name"].split("::")[-1] for k in F.callers.get(fs[0]["mg"], ())}
+        if not got:
+            raise AnalysisBroken("%s has no caller" % callee)
+        if not got <= allowed:
+            return False, "%s is also called from %s" % (callee, ", ".join(sorted(got - allowed))), F.loc(fs[0])
+    pp = _one(F, "phi_pos")[0]
+    pu = _one(F, "phi_uv")[0]
+    S = Struct(pu)
+    n = 0
+    lam_init = None
+    for x in walk(pu["body"]):
+        for d_ in (x.get("decls", ()) if x.get("k") == "DeclStmt" else ()):
+            if d_.get("name") == "lambda" and d_.get("init") is not None:
+                lam_init = render(d_["init"], pu)
+    if lam_init is None or not re.match(r"^lambda_2\(u, ?v\)$", lam_init):
+        return False, "phi_uv: lambda is not lambda_2(u,v) (%s)" % lam_init, F.loc(pu)
+    for c in F.calls[pu["mg"]]:
+        if c.get("mg") != pp["mg"]:
+            continue
+        n += 1
+        gs = [(render(g_[0], pu, resolve_locals=False), g_[1]) for g_ in S.guards(c) if g_[0] != "switch"]
+        if not any(tr and re.match(r"^\(?0\.? < lambda\)?$|^\(?lambda > 0\.?\)?$", t_) for t_, tr in gs):
+            return False, "call of phi_pos in phi_uv is not guarded by lambda > 0 (guards: %s)" % gs, F.loc(pu, c)
+    if n == 0:
+        raise AnalysisBroken("phi_uv does not call phi_pos")
+    return True, "l0v, lv0 <- luv <- phi_pos <- phi_uv only; %d calls of phi_pos, all under lambda_2(u,v) > 0" % n, F.loc(pu)
+
+
+CONTRACTS = {"Ixy_sorted": _contract_ixy_sorted, "phi_pos_lambda_positive": _contract_phi_pos}
 
 
 def _walk(t, assumed, found, f, short, depth=0):
